@@ -62,11 +62,30 @@ theorem shuffledAll_flag (g : Gen) (i : Nat) :
 section
 variable {α : Type} [Scalar α]
 
+/-- the view of a harness-defined computer's feature whose results over the sample list are `vals` (`none` = missing):
+    labels / hit rows / scalars / `(3, 1, 1)` tensors with the missing markers −1 / NaN -/
+def customView (o : Overload) (vals : List (Option (List Int))) : View α :=
+  match o with
+  | .sclass => .sclass (vals.map encSclass)
+  | .mclass => .mclass 2 (vals.map (encMclass 2))
+  | .scalar => .scalar (vals.map encScalar)
+  | .struct => .struct 3 1 1 (vals.map (encStruct 3))
+
+def customDropped (o : Overload) (n : Nat) : View α :=
+  match o with
+  | .sclass => .sclass (List.replicate n (-1))
+  | .mclass => .mclass 2 (List.replicate n (List.replicate 2 (-1)))
+  | .scalar => .scalar (List.replicate n Scalar.nan)
+  | .struct => .struct 3 1 1 (List.replicate n (List.replicate 3 Scalar.nan))
+
 /-- the per-feature view without any flag: the stored values (resp. products) over the sample list -/
 def plainView (st : Storage) (k : GKind) (m : FMap) (ss : List Nat) : View α :=
   match k with
   | .product => .scalar (ss.map (fun s =>
       productOf (st.stored (st.inputIndex m.orig) s) (st.stored (st.inputIndex m.orig2) s)))
+  | .gradient kk => .struct m.d0 m.d1 m.d2 (ss.map (fun s =>
+      encGradient kk ((st.inputFeature m.orig).getD default) m (st.stored (st.inputIndex m.orig) s)))
+  | .custom c => customView c.out (derived st c m [] ss)
   | _ => viewOf k m (ss.map (fun s => st.stored (st.inputIndex m.orig) s))
 
 /-- the view of a dropped feature: every entry is the missing marker -/
@@ -77,6 +96,8 @@ def droppedView (k : GKind) (m : FMap) (n : Nat) : View α :=
   | .scalarId => .scalar (List.replicate n Scalar.nan)
   | .structId => .struct m.d0 m.d1 m.d2 (List.replicate n (List.replicate (m.d0 * m.d1 * m.d2) Scalar.nan))
   | .product => .scalar (List.replicate n Scalar.nan)
+  | .gradient _ => .struct m.d0 m.d1 m.d2 (List.replicate n (List.replicate (m.d0 * m.d1 * m.d2) Scalar.nan))
+  | .custom c => customDropped c.out n
 
 /-- **the spec view under a flag**: dropped → all missing; shuffled by `p` → the plain view of the samples `p[s]`;
     no flag → the plain view -/
@@ -95,6 +116,12 @@ theorem map_iterSample_nil (ss : List Nat) : ss.map (iterSample []) = ss := by
   | nil => rfl
   | cons s ss ih => simp [List.map_cons, ih, iterSample_nil]
 
+/-- reading through a permutation = reading the permuted sample list -/
+theorem derived_shuffled (st : Storage) (c : Custom) (m : FMap) (p ss : List Nat) :
+    derived st c m p ss = derived st c m [] (ss.map (iterSample p)) := by
+  unfold derived
+  cases c.in2 <;> simp [iterate, iterate2, List.map_map, Function.comp, iterSample_nil]
+
 /-- the generator's `select` reads its state only through the flag of the feature -/
 theorem select_by_flag (st : Storage) (g : Gen) (i : Nat) (m : FMap) (hm : g.mapping[i]? = some m) (ss : List Nat) :
     g.select (α := α) st i ss = some (specSelect st g.kind m (g.flagOf i) ss) := by
@@ -102,19 +129,26 @@ theorem select_by_flag (st : Storage) (g : Gen) (i : Nat) (m : FMap) (hm : g.map
   simp only [hm, Option.bind_eq_bind, Option.bind_some, shouldDrop_flag, shuffledAll_flag]
   cases hfl : g.flagOf i with
   | dropped =>
-    cases hk : g.kind <;> simp [specSelect, droppedView]
+    cases hk : g.kind with
+    | custom c => cases ho : c.out <;> simp [specSelect, droppedView, customDropped, ho]
+    | _ => simp [specSelect, droppedView]
   | none =>
-    cases hk : g.kind <;>
+    cases hk : g.kind with
+    | custom c => cases ho : c.out <;> simp [specSelect, plainView, customView, ho]
+    | _ =>
       simp [specSelect, plainView, viewOf, iterate, iterate2, iterSample, List.map_map, Function.comp, productOf,
-        encProduct]
-    intro s _
-    cases st.stored (st.inputIndex m.orig) s <;> cases st.stored (st.inputIndex m.orig2) s <;> rfl
+        encProduct] <;>
+      (intro s _
+       cases st.stored (st.inputIndex m.orig) s <;> cases st.stored (st.inputIndex m.orig2) s <;> rfl)
   | shuffled p =>
-    cases hk : g.kind <;>
-      simp [specSelect, plainView, viewOf, iterate, iterate2, List.map_map, Function.comp, productOf, encProduct]
-    intro s _
-    cases st.stored (st.inputIndex m.orig) (iterSample p s) <;>
-      cases st.stored (st.inputIndex m.orig2) (iterSample p s) <;> rfl
+    cases hk : g.kind with
+    | custom c =>
+      cases ho : c.out <;> simp [specSelect, plainView, customView, ho, derived_shuffled st c m p ss]
+    | _ =>
+      simp [specSelect, plainView, viewOf, iterate, iterate2, List.map_map, Function.comp, productOf, encProduct] <;>
+      (intro s _
+       cases st.stored (st.inputIndex m.orig) (iterSample p s) <;>
+         cases st.stored (st.inputIndex m.orig2) (iterSample p s) <;> rfl)
 
 end
 
@@ -355,13 +389,13 @@ theorem step_flag (ds : Dataset) (hok : FlagsOk ds) (op : HOp) (f : Nat) :
 /-! ### histories -/
 
 theorem gen_wf_drop (st : Storage) (g : Gen) (i : Nat) (h : g.WF st) : (g.drop i).WF st :=
-  ⟨by simpa [Gen.drop] using h.infos_len, h.rows⟩
+  ⟨by simpa [Gen.drop] using h.infos_len, h.rows, h.rows2⟩
 theorem gen_wf_shuffle (st : Storage) (g : Gen) (i : Nat) (p : List Nat) (h : g.WF st) : (g.shuffle i p).WF st :=
-  ⟨by simpa [Gen.shuffle] using h.infos_len, h.rows⟩
+  ⟨by simpa [Gen.shuffle] using h.infos_len, h.rows, h.rows2⟩
 theorem gen_wf_undrop (st : Storage) (g : Gen) (h : g.WF st) : g.undrop.WF st :=
-  ⟨by simpa [Gen.undrop] using h.infos_len, h.rows⟩
+  ⟨by simpa [Gen.undrop] using h.infos_len, h.rows, h.rows2⟩
 theorem gen_wf_unshuffle (st : Storage) (g : Gen) (h : g.WF st) : g.unshuffle.WF st :=
-  ⟨by simpa [Gen.unshuffle] using h.infos_len, h.rows⟩
+  ⟨by simpa [Gen.unshuffle] using h.infos_len, h.rows, h.rows2⟩
 
 /-- the part of a generator the flag operations never touch -/
 def Gen.shape (g : Gen) : GKind × List FMap := (g.kind, g.mapping)
@@ -523,7 +557,23 @@ theorem fit_infos (st : Storage) (k : GKind) (l1 l2 : List Nat) (g : Gen) (h : f
       cases h2 : selectFeatures st (kindAccepts .product) l2 with
       | none => simp [h1, h2] at h
       | some m2 => simp [h1, h2] at h; subst h; rfl
-  | sclassId | mclassId | scalarId | structId =>
+  | custom c =>
+    simp only [Option.bind_eq_bind, Option.pure_def] at h
+    cases hc2 : c.in2 with
+    | none =>
+      simp only [hc2] at h
+      cases h1 : selectFeatures st (kindAccepts (.custom c)) l1 with
+      | none => rw [h1] at h; simp at h
+      | some m1 => rw [h1] at h; simp only [Option.bind_some, Option.some.injEq] at h; subst h; rfl
+    | some k2 =>
+      simp only [hc2] at h
+      cases h1 : selectFeatures st (kindAccepts (.custom c)) l1 with
+      | none => simp [h1] at h
+      | some m1 =>
+        cases h2 : selectFeatures st k2.accepts l2 with
+        | none => simp [h1, h2] at h
+        | some m2 => simp [h1, h2] at h; subst h; rfl
+  | sclassId | mclassId | scalarId | structId | gradient _ =>
     all_goals
       simp only [Option.bind_eq_bind, Option.pure_def] at h
       cases h1 : selectFeatures st (kindAccepts _) l1 with
